@@ -36,7 +36,7 @@ type evLog struct {
 //go:norace
 func Emit(e Event) int64 {
 	s, g := self()
-	if s == nil {
+	if s == nil || s.poison {
 		return 0
 	}
 	raceDisable()
